@@ -259,6 +259,9 @@ func argFor(call ssa.CallInstruction, callee *ssa.Function, i int) ssa.Value {
 // appendSources: for a load of an element of a local slice variable (filter-then-act idiom), the values appended
 // to that slice anywhere in fn or its closures, with the instruction performing the append.
 func appendSources(fn *ssa.Function, elem ssa.Value) (vals []ssa.Value, sites []ssa.Instruction, ok bool) {
+	if ex, isEx := elem.(*ssa.Extract); isEx {
+		return mapSources(fn, ex)
+	}
 	u, isU := elem.(*ssa.UnOp)
 	if !isU {
 		return nil, nil, false
@@ -438,4 +441,77 @@ func (l *Loaded) stateAssignments(kinds map[string]*recKind) []*stateAssign {
 		return a.st.Pos() < b.st.Pos()
 	})
 	return out
+}
+
+// mapSources: for the value (or key) of a range over a map the function made itself, the values (keys) put into that
+// map anywhere in fn or its closures, with the inserting instruction (collect-in-a-map-then-act).
+func mapSources(fn *ssa.Function, ex *ssa.Extract) (vals []ssa.Value, sites []ssa.Instruction, ok bool) {
+	nx, isN := ex.Tuple.(*ssa.Next)
+	if !isN || (ex.Index != 1 && ex.Index != 2) {
+		return nil, nil, false
+	}
+	rg, isR := nx.Iter.(*ssa.Range)
+	if !isR {
+		return nil, nil, false
+	}
+	// the map: a MakeMap value, or a variable holding one
+	var slot *ssa.Alloc
+	var mk ssa.Value
+	switch m := rg.X.(type) {
+	case *ssa.MakeMap:
+		mk = m
+	case *ssa.UnOp:
+		slot, _ = m.X.(*ssa.Alloc)
+	}
+	if slot == nil && mk == nil {
+		return nil, nil, false
+	}
+	isTheMap := func(g *ssa.Function, v ssa.Value) bool {
+		if mk != nil {
+			return v == mk
+		}
+		ld, isLd := v.(*ssa.UnOp)
+		if !isLd {
+			return false
+		}
+		if ld.X == ssa.Value(slot) {
+			return true
+		}
+		if fv, isFV := ld.X.(*ssa.FreeVar); isFV {
+			// captured variable: bound to slot at the closure's creation
+			found := false
+			eachInstr(fn, func(i ssa.Instruction) {
+				mc, isMC := i.(*ssa.MakeClosure)
+				if !isMC || mc.Fn != ssa.Value(g) {
+					return
+				}
+				for bi, b := range mc.Bindings {
+					if b == ssa.Value(slot) && g.FreeVars[bi] == fv {
+						found = true
+					}
+				}
+			})
+			return found
+		}
+		return false
+	}
+	ok = true
+	for _, g := range fnAndClosures(fn) {
+		eachInstr(g, func(i ssa.Instruction) {
+			mu, isMU := i.(*ssa.MapUpdate)
+			if !isMU || !isTheMap(g, mu.Map) {
+				return
+			}
+			if ex.Index == 1 {
+				vals = append(vals, mu.Key)
+			} else {
+				vals = append(vals, mu.Value)
+			}
+			sites = append(sites, mu)
+		})
+	}
+	if len(vals) == 0 {
+		ok = false
+	}
+	return
 }
